@@ -10,6 +10,8 @@
 //                    "+a" = left in appending mode by a writer that is not a fiber (never closes)
 //   maxw=<n>         slices a writer may add (default 2)    maxu=<n> slices an updater may add (default 1)
 //   ops=<op>,<op>    restrict enabledOps to these op kinds (ow,ws,sa,cw,aw,or,rs,cr,cf,fe,fk,p,ou,us,cu,au)
+//   strict=1         the driver monitor also reports the two classes of rejections that are findings on the unchanged
+//                    code (message starts with "[known:<kind>]"); default: they are left to TLC (histories)
 // One op = one PUBLIC StoreMap call (plus the caller's own accesses that belong to it), so the call/return history
 // the engine records is a history of public calls:
 //   ow:<k>  openForWriting(k) + anchor->setKey(k)            -> "<fileno>" | "F"
@@ -80,12 +82,15 @@ struct Ed {
     int key = 0;                // 0: no edition was born here yet
     int writer = -1;            // fiber that created it and has not called its releasing call yet (definite exclusive holder)
     bool readable = false;      // its writer has called sa / cw / cu (readers may legitimately open it from that call on)
-    bool aborted = false;       // aw returned for it while readers existed or not: no open that starts later may succeed
-    bool dead = false;          // a deletion that covers it has returned
+    bool aborted = false;       // aw/au returned for it: no open that starts later may succeed
+    bool dead = false;          // a deletion that covers it has returned (the property as stated)
+    bool deadR = false;         // ... not counting deletions that raced with the closeForUpdating that made it (relaxed)
+    bool sup = false;           // stale edition of an update whose closeForUpdating was called (shares its suffix)
 };
 
 struct SmTarget : Target {
     int nf = 0, N = 3, maxw = 2, maxu = 1;
+    bool strictMon = false;
     std::vector<int> keys;
     std::set<std::string> opFilter;
     Ipc::StoreMap::Owner *owner = nullptr;
@@ -96,13 +101,14 @@ struct SmTarget : Target {
     std::vector<std::unique_ptr<Ipc::StoreMapUpdate>> upd;
     std::vector<StoreEntry *> entries;                // raw zeroed memory, never constructed (only key/basics are read)
     std::vector<Key> entryKeys;
-    // ---- monitor (ghost) ----
+    std::set<int> preApp;                             // anchors left in appending mode by a writer that is not a fiber
+    // ---- monitor (ghost): the property evaluated on call/return events ----
     std::vector<Ed> ed;                               // per anchor
     std::vector<std::set<int>> users;                 // per slice: anchors whose chain contains it ({} = free)
-    std::vector<std::set<int>> cov;                   // per fiber: anchors whose edition a pending deletion covers
-    std::vector<std::set<int>> ban;                   // per fiber: anchors whose edition was dead when the pending open started
-    std::vector<bool> abortedAtCall;                  // helper for ban: recorded in ban as well (same consequence)
-    std::string broken;
+    std::vector<std::set<int>> cov, exc;              // per fiber: anchors covered by its pending deletion / excused (relaxed)
+    std::vector<std::set<int>> ban, banR;             // per fiber: anchors dead (strict / relaxed) when its pending open started
+    std::vector<char> inCu, delPending;
+    std::string broken, knownBroken;
     int curFiber = -1;                                // fiber whose run() is executing (for the cleaner)
 
     ~SmTarget() override { destroy(); }
@@ -114,11 +120,13 @@ struct SmTarget : Target {
         entries.clear();
     }
     void flag(const std::string &m) { if (broken.empty()) broken = m; }
+    void flagKnown(const char *kind, const std::string &m) { if (knownBroken.empty()) knownBroken = std::string("[known:") + kind + "] " + m; }
 
     // ---------------------------------------------------------------------------------------------
     void reset(int nfibers, const std::string &config) override {
         destroy();
-        nf = nfibers; N = 3; maxw = 2; maxu = 1; keys = {1, 2}; opFilter.clear(); broken.clear(); curFiber = -1;
+        nf = nfibers; N = 3; maxw = 2; maxu = 1; keys = {1, 2}; opFilter.clear(); broken.clear(); knownBroken.clear(); curFiber = -1;
+        strictMon = false; preApp.clear();
         int poolN = -1; std::vector<std::string> pre;
         for (auto &tok : Split(config, ' ')) {
             if (tok.rfind("n=", 0) == 0) N = atoi(tok.c_str() + 2);
@@ -128,6 +136,7 @@ struct SmTarget : Target {
             else if (tok.rfind("maxw=", 0) == 0) maxw = atoi(tok.c_str() + 5);
             else if (tok.rfind("maxu=", 0) == 0) maxu = atoi(tok.c_str() + 5);
             else if (tok.rfind("ops=", 0) == 0) { for (auto &x : Split(tok.substr(4), ',')) opFilter.insert(x); }
+            else if (tok == "strict=1") strictMon = true;
         }
         if (poolN < 0 || poolN > N) poolN = N;
         VerifStoreMap::MarkedKeys().clear();
@@ -136,13 +145,14 @@ struct SmTarget : Target {
         map = new StoreMap(path);
         cleaner.t = this;
         map->cleaner = &cleaner;
-        map->disableHitValidation();
         pool.clear(); for (int s = 0; s < poolN; ++s) pool.insert(s);
         fib.assign(nf, Fib());
         upd.clear(); upd.resize(nf);
         entryKeys.assign(nf, Key());
         for (int p = 0; p < nf; ++p) entries.push_back(static_cast<StoreEntry *>(calloc(1, sizeof(StoreEntry))));
-        ed.assign(N, Ed()); users.assign(N, {}); cov.assign(nf, {}); ban.assign(nf, {});
+        ed.assign(N, Ed()); users.assign(N, {});
+        cov.assign(nf, {}); exc.assign(nf, {}); ban.assign(nf, {}); banR.assign(nf, {});
+        inCu.assign(nf, 0); delPending.assign(nf, 0);
         // entries that exist before the history starts: written through the real API, outside the player
         for (auto &x : pre) {
             auto kv = Split(x, ':');
@@ -163,7 +173,7 @@ struct SmTarget : Target {
                 prev = s; users[s].insert(fn);
             }
             ed[fn].key = k; ed[fn].readable = true;
-            if (leaveAppending) map->startAppending(fn); else map->closeForWriting(fn);
+            if (leaveAppending) { map->startAppending(fn); preApp.insert(fn); } else map->closeForWriting(fn);
         }
         // names for the event log
         for (int a = 0; a < N; ++a) {
@@ -218,7 +228,7 @@ struct SmTarget : Target {
             sfileno fn = -1;
             if (auto *anchor = map->openForWriting(key.raw(), fn)) {
                 anchor->setKey(key.raw());
-                f.mode = Writing; f.key = k; f.a = fn; f.n = 0; f.last = -1; f.app = false;
+                f.mode = Writing; f.key = k; f.a = fn; f.b = -1; f.n = 0; f.last = -1; f.app = false; f.staleFirst = -1;
                 r = std::to_string(fn);
             } else r = "F";
         } else if (kind == "ws") {
@@ -233,7 +243,7 @@ struct SmTarget : Target {
             const int k = atoi(Arg(op).c_str());
             const Key key = MakeKey(k);
             sfileno fn = -1;
-            if (map->openForReading(key.raw(), fn)) { f.mode = Reading; f.key = k; f.a = fn; r = std::to_string(fn); }
+            if (map->openForReading(key.raw(), fn)) { f.mode = Reading; f.key = k; f.a = fn; f.b = -1; f.n = 0; f.last = -1; f.app = false; f.staleFirst = -1; r = std::to_string(fn); }
             else r = "F";
         } else if (kind == "rs") {
             std::vector<int> seen;
@@ -241,9 +251,11 @@ struct SmTarget : Target {
             while (s >= 0 && int(seen.size()) <= N) {
                 seen.push_back(s);
                 if (!map->validSlice(s)) { flag("reader of anchor " + std::to_string(f.a) + " reached invalid slice id " + std::to_string(s)); break; }
-                if (!users[s].count(f.a))
-                    flag("reader holding anchor " + std::to_string(f.a) + " reached slice " + std::to_string(s) + " which is " +
-                         (users[s].empty() ? "free" : "owned by the edition at anchor " + std::to_string(*users[s].begin())));
+                if (!users[s].count(f.a)) {
+                    const std::string m = "reader holding anchor " + std::to_string(f.a) + " reached slice " + std::to_string(s) + " which is " +
+                                          (users[s].empty() ? "free" : "owned by the edition at anchor " + std::to_string(*users[s].begin()));
+                    if (ed[f.a].sup) flagKnown("stale-reader-loses-suffix", m); else flag(m);
+                }
                 s = map->readableSlice(f.a, s).next;
             }
             if (int(seen.size()) > N) flag("reader of anchor " + std::to_string(f.a) + " walks a cyclic chain");
@@ -251,9 +263,7 @@ struct SmTarget : Target {
         } else if (kind == "cr") {
             map->closeForReading(f.a); f.mode = Idle; r = "T";
         } else if (kind == "cf") {
-            const auto before = f.freed.size();
-            map->closeForReadingAndFreeIdle(f.a); f.mode = Idle;
-            (void)before; r = "T";
+            map->closeForReadingAndFreeIdle(f.a); f.mode = Idle; r = "T";
         } else if (kind == "fe") {
             r = map->freeEntry(f.a) ? "T" : "F";
         } else if (kind == "fk") {
@@ -267,7 +277,7 @@ struct SmTarget : Target {
             entries[p]->key = entryKeys[p].k;
             upd[p].reset(new Ipc::StoreMapUpdate(entries[p]));
             if (map->openForUpdating(*upd[p], -1)) {
-                f.mode = Updating; f.key = k; f.a = upd[p]->stale.fileNo; f.b = upd[p]->fresh.fileNo; f.n = 0; f.last = -1;
+                f.mode = Updating; f.key = k; f.a = upd[p]->stale.fileNo; f.b = upd[p]->fresh.fileNo; f.n = 0; f.last = -1; f.app = false;
                 f.staleFirst = map->anchors->items[f.a].start.peek();   // we hold a read lock: the chain is stable
                 r = std::to_string(f.a) + "." + std::to_string(f.b) + "." + std::to_string(f.staleFirst);
             } else { upd[p].reset(); r = "F"; }
@@ -284,32 +294,32 @@ struct SmTarget : Target {
         return withFreed(p, r);
     }
 
+    /// fiber q holds what fib[q] says: its open has returned (mode is set in the step in which the open returns)
+    /// and it has not called the releasing operation yet
+    bool definite(int q) const { return fib[q].mode != Idle && !fib[q].calledClose; }
+    static const char *Role(const Fib &g) { return g.mode == Reading ? "reader" : g.mode == Writing ? "writer" : "updater"; }
+    bool holds(const Fib &g, int a) const {
+        return ((g.mode == Reading || g.mode == Writing) && g.a == a) || (g.mode == Updating && (g.a == a || g.b == a));
+    }
+
     // the cleaner runs inside the freeing fiber's step
     void freedSlice(int s) {
         const int p = curFiber;
         if (s < 0 || s >= N) { flag("cleaner called for invalid slice " + std::to_string(s)); return; }
         if (p >= 0) fib[p].freed.push_back(s);
-        if (users[s].empty()) flag("slice " + std::to_string(s) + " freed although no chain contains it (double free)");
         for (int a : users[s]) {
             for (int q = 0; q < nf; ++q) {
-                if (q == p) continue;
+                if (q == p || !definite(q) || !holds(fib[q], a)) continue;
                 const Fib &g = fib[q];
-                if (g.calledClose) continue;
-                const bool holdsA = (g.mode == Reading && g.a == a) || (g.mode == Writing && g.a == a) ||
-                                    (g.mode == Updating && (g.a == a || g.b == a));
-                if (holdsA && Sched::I().idle(q) == false && false) {}
-                if (holdsA && definite(q))
-                    flag("slice " + std::to_string(s) + " of the edition at anchor " + std::to_string(a) + " freed by fiber " + std::to_string(p) +
-                         " while fiber " + std::to_string(q) + " holds that entry (" + (g.mode == Reading ? "reader" : g.mode == Writing ? "writer" : "updater") + ")");
+                const std::string m = "slice " + std::to_string(s) + " of the edition at anchor " + std::to_string(a) + " freed by fiber " + std::to_string(p) +
+                                      " while fiber " + std::to_string(q) + " holds that entry (" + Role(g) + ")";
+                if (g.mode == Reading && ed[a].sup && users[s].size() > 1) flagKnown("stale-reader-loses-suffix", m);
+                else flag(m);
             }
         }
         users[s].clear();
         pool.insert(s);
     }
-    /// fiber q holds what fib[q] says: its open has returned (mode is set inside run() just before the return) and
-    /// it has not called the releasing operation yet
-    bool definite(int q) const { return fib[q].mode != Idle && !fib[q].calledClose && !opening[q]; }
-    std::vector<bool> opening = std::vector<bool>(16, false);
 
     // ---------------------------------------------------------------------------------------------
     std::string project() override {
@@ -359,27 +369,45 @@ struct SmTarget : Target {
     }
 
     // ---------------------------------------------------------------------------------------------
-    // monitor: the property evaluated on call/return events (definite violations only; TLC decides on histories)
+    // monitor: definite violations only (TLC decides on the histories with inferred linearization points)
     // ---------------------------------------------------------------------------------------------
+    static bool Meets(const std::set<int> &c, int a, int b) { return c.count(a) || c.count(b); }
     void onCall(int p, const std::string &op) override {
         const std::string kind = Kind(op);
         Fib &f = fib[p];
         if (kind == "cw" || kind == "aw" || kind == "cr" || kind == "cf" || kind == "cu" || kind == "au") f.calledClose = true;
-        if (kind == "ow" || kind == "or" || kind == "ou") opening[p] = true;
         if (kind == "sa" || kind == "cw") { ed[f.a].readable = true; if (kind == "cw") ed[f.a].writer = -1; }
         if (kind == "aw") ed[f.a].writer = -1;
-        if (kind == "cu") { ed[f.b].readable = true; ed[f.b].writer = -1; }
         if (kind == "au") ed[f.b].writer = -1;
-        if (kind == "fk") { const int k = atoi(Arg(op).c_str()); cov[p].clear(); for (int a = 0; a < N; ++a) if (ed[a].key == k) cov[p].insert(a); }
-        if (kind == "fe") { cov[p].clear(); cov[p].insert(f.a); }
-        if (kind == "or" || kind == "ou") { ban[p].clear(); for (int a = 0; a < N; ++a) if (ed[a].key && (ed[a].dead || ed[a].aborted)) ban[p].insert(a); }
+        if (kind == "cu") {
+            ed[f.b].readable = true; ed[f.b].writer = -1; ed[f.a].sup = true; inCu[p] = 1;
+            // the stale suffix (everything after the first stale slice) is about to be shared with the fresh chain
+            for (int x = 0; x < N; ++x) if (users[x].count(f.a) && x != f.staleFirst) users[x].insert(f.b);
+            for (int q = 0; q < nf; ++q) if (delPending[q] && Meets(cov[q], f.a, f.b)) exc[q].insert(f.b);
+        }
+        if (kind == "fk" || kind == "fe") {
+            cov[p].clear(); exc[p].clear(); delPending[p] = 1;
+            if (kind == "fe") cov[p].insert(f.a);
+            else { const int k = atoi(Arg(op).c_str()); for (int a = 0; a < N; ++a) if (ed[a].key == k) cov[p].insert(a); }
+            for (int u = 0; u < nf; ++u) if (inCu[u] && Meets(cov[p], fib[u].a, fib[u].b)) exc[p].insert(fib[u].b);
+        }
+        if (kind == "or" || kind == "ou") {
+            ban[p].clear(); banR[p].clear();
+            for (int a = 0; a < N; ++a) {
+                if (!ed[a].key) continue;
+                if (ed[a].dead || ed[a].aborted) ban[p].insert(a);
+                if (ed[a].deadR || ed[a].aborted) banR[p].insert(a);
+            }
+        }
     }
 
     /// a new edition was born at anchor a (its creator's open returned): older knowledge about a is void
     void born(int a, int k, int writer) {
         ed[a] = Ed(); ed[a].key = k; ed[a].writer = writer;
         for (auto &c : cov) c.erase(a);
+        for (auto &c : exc) c.erase(a);
         for (auto &b : ban) b.erase(a);
+        for (auto &b : banR) b.erase(a);
     }
 
     void onReturn(int p, const std::string &op, const std::string &resFull) override {
@@ -387,7 +415,6 @@ struct SmTarget : Target {
         const std::string res = resFull.substr(0, resFull.find('/'));
         Fib &f = fib[p];
         f.calledClose = false;
-        opening[p] = false;
         if (kind == "ow" && res != "F") {
             const int a = atoi(res.c_str());
             checkExclusive(p, a, "openForWriting");
@@ -403,33 +430,26 @@ struct SmTarget : Target {
             // the fresh edition continues the identity of the stale one: deletions that cover the stale one cover it
             for (auto &c : cov) if (c.count(f.a)) c.insert(f.b);
             for (auto &b : ban) if (b.count(f.a)) b.insert(f.b);
-            ed[f.b].dead = ed[f.a].dead;
+            for (auto &b : banR) if (b.count(f.a)) b.insert(f.b);
+            ed[f.b].dead = ed[f.a].dead; ed[f.b].deadR = ed[f.a].deadR;
         } else if (kind == "aw") {
             ed[f.a].aborted = true; ed[f.a].readable = false;
         } else if (kind == "au") {
             ed[f.b].aborted = true; ed[f.b].readable = false;
         } else if (kind == "cu") {
-            // the stale suffix now also belongs to the fresh chain
-            bool after = false;
-            Ipc::StoreMapSliceId s = f.staleFirst; int guard = 0;
-            std::vector<int> staleChain;
-            // the stale chain cannot be read from memory any more (it may be freed already); use the users table
-            for (int x = 0; x < N; ++x) if (users[x].count(f.a) && x != f.staleFirst) users[x].insert(f.b);
-            (void)after; (void)s; (void)guard;
+            inCu[p] = 0;
         } else if (kind == "fk" || kind == "fe") {
-            for (int a : cov[p]) ed[a].dead = true;
-            cov[p].clear();
+            for (int a : cov[p]) { ed[a].dead = true; if (!exc[p].count(a)) ed[a].deadR = true; }
+            cov[p].clear(); exc[p].clear(); delPending[p] = 0;
         }
-        if (kind == "or" || kind == "ou") ban[p].clear();
+        if (kind == "or" || kind == "ou") { ban[p].clear(); banR[p].clear(); }
     }
 
     void checkExclusive(int p, int a, const char *what) {
         for (int q = 0; q < nf; ++q) {
-            if (q == p || !definite(q)) continue;
-            const Fib &g = fib[q];
-            const bool holds = ((g.mode == Reading || g.mode == Writing) && g.a == a) || (g.mode == Updating && (g.a == a || g.b == a));
-            if (holds) flag(std::string(what) + " by fiber " + std::to_string(p) + " got anchor " + std::to_string(a) + " while fiber " + std::to_string(q) +
-                            " holds it (" + (g.mode == Reading ? "reader" : g.mode == Writing ? "writer" : "updater") + ")");
+            if (q == p || !definite(q) || !holds(fib[q], a)) continue;
+            flag(std::string(what) + " by fiber " + std::to_string(p) + " got anchor " + std::to_string(a) + " while fiber " + std::to_string(q) +
+                 " holds it (" + Role(fib[q]) + ")");
         }
     }
     void checkReadable(int p, int a, int k, const char *what) {
@@ -438,7 +458,8 @@ struct SmTarget : Target {
         if (!e.key) flag(pre + " where no entry was written");
         else if (e.key != k) flag(pre + " which holds key " + std::to_string(e.key));
         else if (!e.readable) flag(pre + " whose writer has neither closed it nor started appending");
-        else if (ban[p].count(a)) flag(pre + (e.aborted ? " whose writing had been aborted before the open started" : " whose deletion had returned before the open started"));
+        else if (banR[p].count(a)) flag(pre + (e.aborted ? " whose writing had been aborted before the open started" : " whose deletion had returned before the open started"));
+        else if (ban[p].count(a)) flagKnown("lost-deletion-during-update", pre + " whose deletion (racing with the closeForUpdating that created this edition) had returned before the open started");
     }
 
     std::string ghost() override {
@@ -448,38 +469,37 @@ struct SmTarget : Target {
             const Fib &f = fib[p];
             o << (p ? "," : "") << "[" << int(f.mode);
             if (f.mode != Idle) o << "," << f.key << "," << f.a << "," << f.b << "," << f.n << "," << f.last << "," << int(f.app) << "," << f.staleFirst;
-            o << "," << int(f.calledClose) << "," << int(opening[p]) << "," << JSet(cov[p]) << "," << JSet(ban[p]) << "]";
+            o << "," << int(f.calledClose) << "," << JSet(cov[p]) << "," << JSet(exc[p]) << "," << JSet(ban[p]) << "," << JSet(banR[p]) << "]";
         }
         o << "],\"ed\":[";
-        for (int a = 0; a < N; ++a) o << (a ? "," : "") << "[" << ed[a].key << "," << ed[a].writer << "," << int(ed[a].readable) << "," << int(ed[a].aborted) << "," << int(ed[a].dead) << "]";
+        for (int a = 0; a < N; ++a) { const Ed &e = ed[a]; o << (a ? "," : "") << "[" << e.key << "," << e.writer << "," << int(e.readable) << int(e.aborted) << int(e.dead) << int(e.deadR) << int(e.sup) << "]"; }
         o << "],\"users\":[";
         for (int s = 0; s < N; ++s) o << (s ? "," : "") << JSet(users[s]);
-        o << "]}";
+        o << "],\"known\":" << (knownBroken.empty() ? 0 : 1) << "}";
         return o.str();
     }
-    std::string monitor() override { return broken; }
+    std::string monitor() override { return !broken.empty() ? broken : strictMon ? knownBroken : std::string(); }
+    /// part of the explorer's state key: an aborted fiber (failed assert) differs from a running one even when the
+    /// aborting step changed no shared state
     std::string hidden(int p) override { return Sched::I().aborted(p) ? "aborted" : ""; }
 
-    /// all fibers idle (nobody inside a call): locks must be consistent with what the fibers hold
+    /// all fibers idle (nobody inside a call): every lock must be exactly what the fibers hold
     std::string quiescent() override {
         for (int a = 0; a < N; ++a) {
-            int readers = 0; bool writer = false;
+            int readers = 0; bool writer = preApp.count(a) > 0;
             for (int q = 0; q < nf; ++q) {
                 const Fib &g = fib[q];
                 if (g.mode == Reading && g.a == a) ++readers;
                 if (g.mode == Writing && g.a == a) writer = true;
-                if (g.mode == Updating && g.a == a) ++readers;
+                if (g.mode == Updating && g.a == a) readers += 2;          // openForReadingAt + lockHeaders
                 if (g.mode == Updating && g.b == a) writer = true;
             }
             auto &l = map->anchors->items[a].lock;
-            if (int(l.readers.peek()) != readers + preReaders(a) || bool(l.writing.peek()) != (writer || preWriter(a)))
-                return "anchor " + std::to_string(a) + " lock does not match the holders (" + std::to_string(readers) + " readers, writer=" + (writer ? "1" : "0") + "): " + project();
+            if (int(l.readers.peek()) != readers || bool(l.writing.peek()) != writer || int(l.readLevel.peek()) != readers || int(l.writeLevel.peek()) != (writer ? 1 : 0))
+                return "anchor " + std::to_string(a) + " lock does not match its holders (" + std::to_string(readers) + " shared, " + (writer ? "1" : "0") + " exclusive): " + project();
         }
         return "";
     }
-    int preReaders(int) const { return 0; }
-    bool preWriter(int a) const { return preApp.count(a) > 0; }
-    std::set<int> preApp;
 };
 
 void Cleaner::noteFreeMapSlice(const Ipc::StoreMapSliceId sliceId) { t->freedSlice(sliceId); }
